@@ -87,7 +87,7 @@ def cache_key(tier, seed):
     for p in (C.VH, C.DRIVER):
         st = os.stat(p)
         h.update(("%s:%d:%d" % (p, st.st_mtime_ns, st.st_size)).encode())
-    h.update(("v13:%s:%s" % (tier, seed)).encode())
+    h.update(("v14:%s:%s" % (tier, seed)).encode())
     return h.hexdigest()[:16]
 
 
@@ -108,7 +108,16 @@ def run_differential(tier, seed):
                 shutil.rmtree(os.path.join(rd, f), ignore_errors=True)
         shutil.rmtree(d, ignore_errors=True)
         os.makedirs(d)
-        rc, out = C.run([C.VH, "node"] + TIERS[tier] + ["--seed", str(seed), "--out", d], timeout=3000)
+        # structural tie (escalation): functions of the modelled sources whose text differs from the
+        # committed fingerprints get three times as many simulated executions (not an alarm by itself)
+        rc_f, out_f = C.run([sys.executable, os.path.join(C.ROOT, "tools", "fn_fingerprints.py")])
+        changed_fns = [l.strip() for l in out_f.splitlines() if "::" in l] if rc_f == 0 else []
+        args = list(TIERS[tier])
+        if changed_fns:
+            k = args.index("--runs")
+            args[k + 1] = str(int(args[k + 1]) * 3)
+            C.log("[node] %d modelled function(s) changed (%s): %s simulated runs" % (len(changed_fns), ", ".join(changed_fns[:4]), args[k + 1]))
+        rc, out = C.run([C.VH, "node"] + args + ["--seed", str(seed), "--out", d], timeout=6000)
         if rc != 0:
             raise RuntimeError("node simulator failed: " + out[-1500:])
         hist, panics = {}, {}
@@ -152,7 +161,8 @@ def run_differential(tier, seed):
         pn, pev, prej = acc["pelection"]["traces"], acc["pelection"]["events"], acc["pelection"]["rejects"]
         s = {"acceptors": acc, "pel_traces": pn, "pel_events": pev, "pel_rejects": prej[:200],
              "cases": n, "disagreements": len(dis), "dis": dis[:2000], "hist": hist, "panics": panics,
-             "classes": len(classes), "class_hist": dict(classes.most_common(12)), "dir": d}
+             "classes": len(classes), "class_hist": dict(classes.most_common(12)), "dir": d,
+             "changed_functions": changed_fns}
         json.dump(s, open(summ, "w"))
         return s, d
 
@@ -302,6 +312,7 @@ def check(spec, tier, seed, replay=None):
             "p_events": summ.get("pel_events", 0) if spec.get("acceptor") else None,
             "incoq_vm_compute_cases": n_coq,
             "component_ties": comp_ties,
+            "changed_functions_vs_fingerprints": summ.get("changed_functions", []),
             "call_histogram": summ["hist"], "class_histogram_top": summ["class_hist"],
             "implementation_panics_by_location": summ["panics"],
             "explanation": spec["explanation"],
